@@ -5,7 +5,7 @@ Everything here is dual mode (pyvc.speclib): the same definitions are evaluated 
 exact rationals by the native bounded checks and on z3 terms by the VC generator.
 """
 from fractions import Fraction
-from pyvc.speclib import memo, define
+from pyvc.speclib import memo, define, as_seq
 from pyvc.speclib import (isum, rsum, cnt, ite, implies, iff, And, Or, Not, forall, exists, length, isin, sqrt, mkseq, mkset,
                           pow10, logb, absv, toreal, fdiv, maxv, minv, HAVE_Z3)
 
@@ -525,3 +525,79 @@ def recoded(text, s, N, f):
 
 
 SPEC.update(dict(kappa_seq=kappa_seq, dmax_inv=dmax_inv, recoded=recoded))
+
+
+# ----------------------------------------------------------------------------- C16: phosphosites
+def is_sty(c):
+    return isin(c, 'STY')
+
+
+def site_ok(x, s, N):
+    """x is a 0-based index inside the sequence holding S, T or Y"""
+    return And(x >= 0, x < N, is_sty(s[x]))
+
+
+def phos_inv(L, s, N):
+    """the stored phosphosite list: valid indices, no repeats"""
+    L = as_seq(L)
+    return And(forall(lambda i: site_ok(L[i], s, N), 0, length(L)),
+               forall(lambda i: forall(lambda k: Not(L[i] == L[k]), 0, i), 0, length(L)))
+
+
+def member(x, L, upto):
+    L = as_seq(L)
+    return exists(lambda i: L[i] == x, 0, upto)
+
+
+def sites_after(L1, L0, R, k, s, N):
+    """L1 is the site list after the first k requested (1-based) positions R[0:k] were processed starting from L0:
+       L0 is kept as a prefix; every further entry was requested and is valid; every valid requested position is present"""
+    L1, L0, R = as_seq(L1), as_seq(L0), as_seq(R)
+    return And(length(L1) >= length(L0),
+               forall(lambda i: L1[i] == L0[i], 0, length(L0)),
+               forall(lambda i: exists(lambda q: R[q] - 1 == L1[i], 0, k), length(L0), length(L1)),
+               forall(lambda q: implies(site_ok(R[q] - 1, s, N), member(R[q] - 1, L1, length(L1))), 0, k),
+               phos_inv(L1, s, N))
+
+
+SPEC.update(dict(is_sty=is_sty, site_ok=site_ok, phos_inv=phos_inv, member=member, sites_after=sites_after))
+from pyvc.speclib import put
+
+
+def phos_sub(s, sites, bits):
+    """the sequence with E at the sites whose status bit is '1'"""
+    t = s
+    if HAVE_Z3:
+        from pyvc.values import SSeq
+        if isinstance(s, SSeq):
+            t = SSeq(s.arr, s.off, s.n, 'list', s.ek)
+    for site, b in zip(sites, bits):
+        if b == '1':
+            t = put(t, site, 'E')
+    if HAVE_Z3:
+        from pyvc.values import SSeq
+        if isinstance(t, SSeq):
+            t = SSeq(t.arr, t.off, t.n, 'str', t.ek)
+    return t
+
+
+def dist_entry_ok(entry, s, N, sites, bits):
+    """one entry of the phosphostatus distribution: kappa, f+, f-, FCR, NCPR, hydropathy of the substituted sequence, and the status"""
+    u = upper_seq(phos_sub(s, sites, bits))
+    p, n = npos(u, 0, N), nneg(u, 0, N)
+    return And(entry[0] == kappa_seq(u, N), entry[1] == toreal(p) / N, entry[2] == toreal(n) / N, entry[3] == toreal(p + n) / N,
+               entry[4] == toreal(p - n) / N, entry[5] == res_sum(kd_shifted, u, 0, N) / N, tuple(entry[6]) == tuple(bits))
+
+
+def dist_ok(result, s, N, sites):
+    import itertools
+    k = len(sites)
+    if len(result) != 2 ** k:
+        return False
+    acc = True
+    for j, bits in enumerate(itertools.product('01', repeat=k)):
+        acc = And(acc, dist_entry_ok(result[j], s, N, sites, bits))
+    return acc
+
+
+SPEC.update(dict(phos_sub=phos_sub, dist_entry_ok=dist_entry_ok, dist_ok=dist_ok))
